@@ -239,12 +239,29 @@ Proof. vm_compute. reflexivity. Qed.
    choice_float probs u: cdf = cumsum of probs with one rounding per addition; every entry divided by the last
    one and rounded; the index is the first entry that exceeds u. probs is what the generator passes as p=
    (prio_probs of the three configured probabilities). Theorems hold for arbitrary rational probs, in
-   particular for doubles. Two remarks of audit C (P4): (1) (b), (c) and C15_gen_u_zero_prob_never carry no
-   non-negativity hypothesis, so they also speak about inputs numpy's choice refuses (ValueError for a negative
-   or NaN p): true of the model function there, about the code only where the code draws at all; the RUNNER of
-   kind 25 - what the check compares with the implementation - refuses such inputs
-   (C15_gen_run_u_refuses_negative below). (2) [rnd64] has no subnormals (Num/Rnd64.v), so for probabilities
-   below 2^-1022 the closeness theorems are about an idealised binary64. *)
+   particular for doubles. Remarks of audits C (P4) and D (P1):
+   (1) (b), (c) and C15_gen_u_zero_prob_never carry no non-negativity hypothesis, so they also speak about inputs for
+   which numpy's choice raises when it is called (ValueError for a negative or NaN quotient): true of the model
+   function there, about the code only where the code draws at all.
+   (2) DOMAIN OF THE RUNNER (documented limitation). The runner of kind 25 - what the check compares with the
+   implementation - answers [-1] unless the three CONFIGURED probabilities are non-negative and their float sum is
+   positive ([forallb (0 <=) user && 0 < fsum user], tested for every input on the raw triple;
+   C15_gen_run_u_domain below). This guard is NOT numpy's validation: WorkloadGenerator.__init__ divides by np.sum
+   first (workload.py:89) and Generator.choice validates the QUOTIENTS, and only when a class is drawn
+   (AuditExamplesD.C15guard, checked against the real generator by audit D):
+     - inputs numpy accepts and the runner refuses: triples of non-positive numbers with a negative sum, e.g.
+       (-1/4, -1/4, -1/2) -> (0.25, 0.25, 0.5) and (-1, -1, 0) -> (0.5, 0.5, 0): the generator runs and draws classes
+       ([prio_probs] and [gen_run_u] agree with it), the runner answers [-1]; and any negative entry or zero sum when
+       no class is ever drawn (num_pipelines = 0 or no tick): Python returns normally, the runner answers [-1];
+     - inputs numpy refuses and the runner refuses too: (-1/2, 1, 1/2) ("not non-negative"), (0, 0, 0) ("contain NaN")
+       whenever a class is drawn;
+     - inputs the runner accepts and numpy refuses: sums that overflow binary64 (3 x 2^1023 -> inf, quotients 0.0,
+       "do not sum to 1"): outside the domain of [rnd64], which has no overflow.
+   The restriction is harmless for the correspondence: the harness only produces non-negative triples with a
+   positive sum, and ON that domain guard and numpy agree (C15_gen_run_u_domain_agrees below: the quotients are
+   non-negative rationals, not all zero, their float cdf ends in exactly 1 - numpy's validation passes).
+   (3) [rnd64] has no subnormals (Num/Rnd64.v), so for probabilities below 2^-1022 the closeness theorems are about
+   an idealised binary64. *)
 
 (* (a) the index is a valid class for every u < 1 (the last float cdf entry is exactly 1) *)
 Theorem C15_choice_float_in_range : forall probs u,
@@ -372,24 +389,53 @@ Theorem C15_gen_u_zero_prob_never : forall P user n ds out s',
 Proof. exact ChoiceFloatFacts.gen_u_zero_prob_never. Qed.
 Print Assumptions C15_gen_u_zero_prob_never.
 
-(* what numpy refuses, the runner refuses. A case of kind 25 on the wire: num_pipelines, num_operators (numerator,
-   denominator), cpu_io_ratio (2), waiting_ticks_mean, nticks, interactive_prob (2), query_prob (2), batch_prob (2),
-   then the stream. A rational n/d on the wire is negative iff n < 0. [run_gen_u] answers [-1] as soon as one of the
-   three configured probabilities is negative or their float sum (a0 + a1) + a2 is not positive - whatever the
-   other fields and the stream are *)
-From Eudoxia Require Import Model.Codec Model.RunGen Proofs.AuditRepairFacts.
-Theorem C15_gen_run_u_refuses_negative :
+(* the DOMAIN of the runner (a restriction of the runner, NOT numpy's validation - see (2) in the header of this
+   part). A case of kind 25 on the wire: num_pipelines, num_operators (numerator, denominator), cpu_io_ratio (2),
+   waiting_ticks_mean, nticks, interactive_prob (2), query_prob (2), batch_prob (2), then the stream. A rational n/d
+   on the wire is negative iff n < 0. Outside its domain - one of the three configured probabilities negative, or
+   their float sum (a0 + a1) + a2 not positive - [run_gen_u] answers [bad_input] = [-1], whatever the other fields
+   and the stream are. Nothing is claimed about what the code does there (it may run normally, see the header) *)
+From Eudoxia Require Import Model.Codec Model.RunGen Proofs.AuditRepairFacts Proofs.AuditRepairFacts2.
+Theorem C15_gen_run_u_domain :
   forall np an ad rn rd wmean nticks i_n i_d q_n q_d b_n b_d stream,
   ((i_n < 0)%Z \/ (q_n < 0)%Z \/ (b_n < 0)%Z \/
    ~ (0 < fsum [Qmake i_n (Z.to_pos i_d); Qmake q_n (Z.to_pos q_d); Qmake b_n (Z.to_pos b_d)])%Q) ->
   run_gen_u (np :: an :: ad :: rn :: rd :: wmean :: nticks :: i_n :: i_d :: q_n :: q_d :: b_n :: b_d :: stream)
   = bad_input.
-Proof. exact AuditRepairFacts.GenRefuse.run_gen_u_refuses_negative. Qed.
-Print Assumptions C15_gen_run_u_refuses_negative.
+Proof. exact AuditRepairFacts.GenRefuse.run_gen_u_domain. Qed.
+Print Assumptions C15_gen_run_u_domain.
+
+(* the positive direction, which makes the restriction harmless: ON the domain - every configured probability
+   non-negative, float sum positive, i.e. the guard of the runner holds - what numpy's Generator.choice validates
+   passes. The probabilities it receives ([prio_probs user], the rounded quotients by the float sum) are non-negative
+   (rationals: no NaN, the divisor is not 0) and not all zero, and the float cdf numpy builds from them ends in
+   EXACTLY 1 (x / x = 1 in binary64 for x > 0; numpy's "probabilities do not sum to 1" test cannot fire). The exact
+   sum of the configured triple is positive too, so every theorem of this part with the hypotheses
+   [Forall (0 <=) user], [0 < sumQl user] applies on the whole domain of the runner *)
+Theorem C15_gen_run_u_domain_agrees : forall user,
+  Forall (fun p => 0 <= p)%Q user -> (0 < fsum user)%Q ->
+  Forall (fun p => 0 <= p)%Q (prio_probs user) /\ (0 < sumQl (prio_probs user))%Q /\
+  (last (float_cdf (prio_probs user)) 0 == 1)%Q /\
+  (0 < sumQl user)%Q.
+Proof. exact AuditRepairFacts2.GenDomain.domain_agrees. Qed.
+Print Assumptions C15_gen_run_u_domain_agrees.
+
+(* the guard of the runner as propositions: it holds exactly on that domain *)
+Theorem C15_gen_run_u_guard_spec : forall user,
+  forallb (Qle_bool 0) user && Qltb 0 (fsum user) = true <->
+  Forall (fun p => 0 <= p)%Q user /\ (0 < fsum user)%Q.
+Proof. exact AuditRepairFacts2.GenDomain.guard_spec. Qed.
+Print Assumptions C15_gen_run_u_guard_spec.
+
+(* the rounding fact behind "ends in exactly 1" *)
+Theorem C15_fdiv_self : forall x, (0 < x)%Q -> (fdiv x x == 1)%Q.
+Proof. exact AuditRepairFacts2.GenDomain.fdiv_self_pos. Qed.
+Print Assumptions C15_fdiv_self.
 
 (* the input of AuditExamplesC.C15.negative_probability_is_not_refused (2 pipelines, 3 operators, ratio 1/2, mean 2,
    one tick, probabilities -1/2, 1, 1/2, the stream u = 1/5, u = 7/10, N(3) = 6/5, N(2) = 2/5): [gen_run_u] draws
-   classes from it, the runner refuses it; and three zero probabilities (float sum 0), any stream *)
+   classes from it, the runner answers [-1] (outside its domain); and three zero probabilities (float sum 0), any
+   stream *)
 Example C15_ex_run_u_refuses :
   run_gen_u [2; 3; 1; 1; 2; 2; 1;  -1; 2;  1; 1;  1; 2;  4;  2; 1; 5;  2; 7; 10;  1; 3; 1; 6; 5;  1; 2; 1; 2; 5]%Z
   = bad_input /\
